@@ -59,7 +59,8 @@ func NewHTML(htmlContent utils.ContentInput, baseUrl string, urlFetcher utils.Ur
 	var out HTML
 	// html.Parse wraps the <html> tag
 	out.Root = (*utils.HTMLNode)(root.FirstChild)
-	if out.Root.Type == html.DoctypeNode {
+	// skip the doctype and the comments which may precede the <html> element
+	for out.Root.Type != html.ElementNode && out.Root.NextSibling != nil {
 		out.Root = (*utils.HTMLNode)(out.Root.NextSibling)
 	}
 	out.Root.Parent = nil
